@@ -5,11 +5,11 @@ package main
 // Execute (C04).
 
 import (
-	"os"
 	"fmt"
 	"go/ast"
 	"go/token"
 	"go/types"
+	"os"
 	"strings"
 
 	"golang.org/x/tools/go/ssa"
@@ -375,10 +375,20 @@ func rtMemoReplay(a *aggregator, v *rtView, f *ssa.Function) {
 						x, y = y, x
 					}
 					if v.isLoadOfVar(x, "tokenIndex") {
-						if cv, ok := y.(*ssa.Convert); ok {
-							if call, ok := cv.X.(*ssa.Call); ok && calleeName(call) == "builtin.len" && isMField(call.Call.Args[0], "Partial") {
-								good = true
+						// len(m.Partial), converted to the counter's type where that is not int
+						for {
+							if cv, ok := y.(*ssa.Convert); ok {
+								y = cv.X
+								continue
 							}
+							if cv, ok := y.(*ssa.MultiConvert); ok {
+								y = cv.X
+								continue
+							}
+							break
+						}
+						if call, ok := y.(*ssa.Call); ok && calleeName(call) == "builtin.len" && isMField(call.Call.Args[0], "Partial") {
+							good = true
 						}
 					}
 				}
